@@ -134,7 +134,7 @@ PROPS["C19"] = {
     "harness": {"kind": "cmd", "cmd": "c19"},
     "history_len": 6,
     "extra_harnesses": [{"cmd": "nodewire", "tag": "nodewire"}],
-    "level_text": "Theorems: the request is accepted iff the hash list is non-empty and every entry is 64 hex digits, the amount is a decimal integer in [1, 2^64), and block number and decay timestamps are positive; a rejected request forwards nothing; for every accepted request the forwarded values are the request's own and the joined hash string splits back into exactly the request's hashes in order (join/split round trip, needs only that hex strings contain no comma); boundary amounts 2^64-1 / 2^64 / 0 / signed. Rendering of commitments is field-wise lowercase hex (injective by C02's hex lemma). Tied to the real Service.SendBid with the real protovalidate validator: boundary tables for amounts (signs, spaces, newline, unicode digits, leading zeros, overflow), hash lists (lengths 63/64/65, non-hex, embedded comma/newline, empty), all sign/zero/min-int64 combinations of the three numbers, random requests, and commitments with arbitrary contents and several differing commitments per bid. Whole node: the scenarios of harness/cmd/nodewire (two real nodes built by node.NewNode against a scripted JSON-RPC chain node, driven through their gRPC APIs: stake / allowance present or not, engine accepts or rejects, well-formed or malformed request) are part of this check and are judged by Model/Wiring.",
+    "level_text": "Theorems: the request is accepted iff the hash list is non-empty and every entry is 64 hex digits, the amount is a decimal integer in [1, 2^64), and block number and decay timestamps are positive; a rejected request forwards nothing; for every accepted request the forwarded values are the request's own and the joined hash string splits back into exactly the request's hashes in order (join/split round trip, needs only that hex strings contain no comma); boundary amounts 2^64-1 / 2^64 / 0 / signed; in a session of any length through the one service the k-th call answers for the k-th request alone (forwards its own values or nothing, streams its own commitments), a hand-over the network layer refuses offers the request's own values once and streams nothing, and a malformed request reaches the network layer at no position of a session. Rendering of commitments is field-wise lowercase hex (injective by C02's hex lemma). Tied to the real Service.SendBid with the real protovalidate validator: boundary tables for amounts (signs, spaces, newline, unicode digits, leading zeros, overflow), hash lists (lengths 63/64/65, non-hex, embedded comma/newline, empty), all sign/zero/min-int64 combinations of the three numbers, random requests, commitments with arbitrary contents and several differing commitments per bid, and hand-overs the network layer refuses, each followed by further requests through the same long-lived service (a violation's replay file carries the calls that preceded it). Whole node: the scenarios of harness/cmd/nodewire (two real nodes built by node.NewNode against a scripted JSON-RPC chain node, driven through their gRPC APIs: stake / allowance present or not, engine accepts or rejects, well-formed or malformed request) are part of this check and are judged by Model/Wiring.",
     "level_note": "Trusted: Lean kernel; harness; protovalidate/CEL evaluation (the rules are modelled as Lean predicates and compared on every case, including the runtime-error cases of uint()); strings.Join/Split.",
     "nontrivial_rule": "distinct (tag, accepted?, number of hashes, number of commitments) cells",
     "class_of": lambda c, r: "%s/%d/%d" % (r["model"].get("status"), len(c["in"]["txhashes"]), len(c["in"]["commits"] or [])),
